@@ -19,8 +19,9 @@ void on_event(int kind, double a, double b) {
   if (kind == squids::verif::EV_EXPM_BRANCH) { last.branch = (int)a; last.s = (int)b; last.n++; }
 }
 
-enum Fam { ANTIHERM, HERM, NORMAL, DENSE_C, UPPER, NILPOTENT, RANKONE, BLOCKDIAG, DIAGPLUS, DIAG, REALROT, NFAM };
-const char* famname[] = {"anti-hermitian", "hermitian", "normal", "dense", "upper-triangular", "nilpotent", "rank-one", "block-diagonal", "diagonal+small", "diagonal", "real-rotation"};
+enum Fam { ANTIHERM, HERM, NORMAL, DENSE_C, UPPER, NILPOTENT, RANKONE, BLOCKDIAG, DIAGPLUS, DIAG, REALROT, LOWER, LOWER_NILPOTENT, SINGLE_OFFDIAG, BIDIAG, NFAM };
+const char* famname[] = {"anti-hermitian", "hermitian", "normal", "dense", "upper-triangular", "nilpotent", "rank-one", "block-diagonal", "diagonal+small", "diagonal", "real-rotation",
+                         "lower-triangular", "strictly-lower", "diagonal+one-entry", "bidiagonal"};
 
 ref::Mat rand_herm(Rng& r, int n) {
   ref::Mat a(n);
@@ -50,13 +51,21 @@ ref::Mat gen_matrix(Rng& r, int n, int fam, double target) {
     case DIAGPLUS: for (int i = 0; i < n; i++) for (int j = 0; j < n; j++) a(i, j) = ref::cx(r.normal(), r.normal()) * (ref::real)(i == j ? 1.0 : 1e-3); break;
     case DIAG: for (int i = 0; i < n; i++) a(i, i) = ref::cx(r.normal() * 0.1, r.normal()); break;
     case REALROT: for (int i = 0; i < n; i++) for (int j = i + 1; j < n; j++) { double x = r.normal(); a(i, j) = x; a(j, i) = -x; } break;
+    case LOWER: for (int i = 0; i < n; i++) for (int j = 0; j <= i; j++) a(i, j) = ref::cx(r.normal(), r.normal()); break;
+    case LOWER_NILPOTENT: for (int i = 0; i < n; i++) for (int j = 0; j < i; j++) a(i, j) = ref::cx(r.normal(), r.normal()); break;
+    case SINGLE_OFFDIAG: {  // a diagonal matrix with exactly one off-diagonal entry, anywhere
+      for (int i = 0; i < n; i++) a(i, i) = ref::cx(r.normal() * 0.1, r.normal());
+      int i = r.pick(n), j = r.pick(n - 1); if (j >= i) j++;
+      a(i, j) = r.coin() ? ref::cx(r.normal(), 0) : (r.coin() ? ref::cx(0, r.normal()) : ref::cx(r.normal(), r.normal()));
+    } break;
+    case BIDIAG: { bool low = r.coin(); for (int i = 0; i < n; i++) { a(i, i) = ref::cx(r.normal() * 0.1, r.normal()); if (i + 1 < n) { if (low) a(i + 1, i) = ref::cx(r.normal(), r.normal()); else a(i, i + 1) = ref::cx(r.normal(), r.normal()); } } } break;
   }
   ref::real nn = ref::norm1(a);
   if (nn > 0) for (auto& x : a.a) x *= (ref::real)target / nn;
   return rounded(a);
 }
 double norm_limit(int fam) {
-  switch (fam) { case ANTIHERM: case REALROT: return 1e3; case NORMAL: case DIAG: return 1e3; case HERM: return 30; default: return 50; }
+  switch (fam) { case ANTIHERM: case REALROT: return 1e3; case NORMAL: case DIAG: return 1e3; case HERM: return 30; case SINGLE_OFFDIAG: case BIDIAG: return 200; default: return 50; }
 }
 double gen_norm(Rng& r, int fam) {
   static const double theta[] = {1.495585217958292e-002, 2.539398330063230e-001, 9.504178996162932e-001, 2.097847961257068, 4.25, 8.5, 17, 34, 68, 136, 272, 544};
@@ -232,6 +241,17 @@ int main(int argc, char** argv) {
       for (int k = 0; k < d * d; k++) if (!(std::fabs(B[k] - a[k]) <= 3 * tol)) { c.violation(vh::fmt("C07:UTransform:d%d:not-inverted-by-minus-s", d), what + vh::fmt(" component %d: %.17g -> %.17g", k, a[k], B[k])); break; }
     } catch (std::exception& ex) { c.violation(vh::fmt("C07:UTransform:d%d:exception", d), what + " threw on the way back: " + ex.what()); }
     if (A.GetComponents() != a || V.GetComponents() != v) c.violation("C07:UTransform:operand-modified", what);
+    // the generator may be the transformed vector itself: exp(-isA) A exp(isA) = A
+    if (r.coin(0.2)) {
+      double na = (double)ref::norm1(MA);
+      double s2 = na > 0 ? std::min(3.0 / na, 1e3) * r.sign() : 0.5;
+      try {
+        SU_vector Rs = A.UTransform(A, gsl_complex_rect(0, s2));
+        c.eval(); c.count("utransform.generator_is_the_vector");
+        double tl = K * EPS * 8 * (1 + 2 * std::fabs(s2) * na) * d * d * ma;
+        for (int k = 0; k < d * d; k++) if (!(std::fabs(Rs[k] - a[k]) <= tl)) { c.violation(vh::fmt("C07:UTransform:d%d:wrong-value-when-generator-is-the-vector", d), what + vh::fmt(" s=%.17g component %d: %.17g -> %.17g", s2, k, a[k], Rs[k])); break; }
+      } catch (std::exception& ex) { c.violation(vh::fmt("C07:UTransform:d%d:exception", d), what + " threw with V==A: " + ex.what()); }
+    }
     if (idx - N < 3) c.sample(what.substr(0, 400));
   });
   c.write();
